@@ -235,11 +235,16 @@ fn decode_all(buf: &[u8]) -> Vec<Rec> {
     recs
 }
 
+/// Set (in the parent, before forking) to run one path exactly once in a pristine process:
+/// no in-process replays, always a forked worker.
+static PRISTINE_SINGLE_RUN: std::sync::atomic::AtomicBool = std::sync::atomic::AtomicBool::new(false);
+
 fn run_item<S: System>(sys: &S, item: u32, path: &[S::A]) -> Rec {
     let o = sys.run(path);
     let mut nondeterministic = false;
     let mut violation = o.violation;
-    if let Some(v) = &violation {
+    let single = PRISTINE_SINGLE_RUN.load(std::sync::atomic::Ordering::Relaxed);
+    if let (Some(v), false) = (&violation, single) {
         // Re-execute twice from scratch before believing a violation.
         for _ in 0..2 {
             let o2 = sys.run(path);
@@ -306,7 +311,8 @@ fn exec_batch<S: System>(
     // Narrow levels (deep, thin graphs such as byte-by-byte write schedules) are executed in
     // the parent: forking a large process thousands of times costs far more than the work.
     // Engines whose observations depend on the descriptor table always run in workers.
-    let nofork = std::env::var("MHV_NOFORK").is_ok() || (!sys.needs_clean_fds() && n < 192);
+    let pristine = PRISTINE_SINGLE_RUN.load(std::sync::atomic::Ordering::Relaxed);
+    let nofork = !pristine && (std::env::var("MHV_NOFORK").is_ok() || (!sys.needs_clean_fds() && n < 192));
     if nofork {
         for i in 0..n {
             out[i] = Some(run_item(sys, i as u32, &path_of(i)));
@@ -543,12 +549,54 @@ pub fn bfs<S: System>(sys: &S, limits: &Limits, workers: usize) -> Stats {
                         impl_counts[b] += 1;
                     }
                 }
+                let mut r = r;
                 if r.nondeterministic {
-                    st.machinery_errors.push(format!(
-                        "nondeterministic replay of a violating path: {}",
-                        r.violation.as_ref().map(|v| v.detail.clone()).unwrap_or_default()
-                    ));
-                    continue;
+                    // Re-executions inside one worker process disagreed. Either the harness does
+                    // not own some source of nondeterminism (machinery error), or the subject keeps
+                    // state in the process that outlives its objects (statics, thread-locals).
+                    // Decide in two pristine processes (forks of this parent, which never runs
+                    // subject code), one execution each.
+                    let one_path: Vec<u64> = {
+                        let (n, a) = part[i];
+                        let mut p = path_of_node(&nodes, n);
+                        p.push(a);
+                        p
+                    };
+                    let single = |_: usize| -> Vec<S::A> { one_path.iter().map(|x| S::dec(*x)).collect() };
+                    PRISTINE_SINGLE_RUN.store(true, std::sync::atomic::Ordering::Relaxed);
+                    let mut errs = vec![];
+                    let a = exec_batch(sys, 1, &single, 1, limits.item_timeout_s, &mut errs, None).pop().flatten();
+                    let b = exec_batch(sys, 1, &single, 1, limits.item_timeout_s, &mut errs, None).pop().flatten();
+                    PRISTINE_SINGLE_RUN.store(false, std::sync::atomic::Ordering::Relaxed);
+                    let agree = match (&a, &b) {
+                        (Some(x), Some(y)) => x.key == y.key && x.obs == y.obs && x.violation.as_ref().map(|v| v.signature.clone()) == y.violation.as_ref().map(|v| v.signature.clone()),
+                        _ => false,
+                    };
+                    match (agree, a) {
+                        (true, Some(mut x)) if x.violation.is_some() => {
+                            if let Some(v) = &mut x.violation {
+                                v.detail = format!("[reproduced identically in two fresh processes; repeated executions inside one process differ, i.e. the outcome depends on state that outlives the connection/server objects] {}", v.detail);
+                            }
+                            x.nondeterministic = false;
+                            r = x;
+                        }
+                        (true, Some(_)) => {
+                            // in a fresh process the path does not violate: the violation needs
+                            // state left behind by earlier executions in the same process
+                            if let Some(v) = &mut r.violation {
+                                v.signature = format!("process-state-dependent:{}", v.signature);
+                                v.detail = format!("[this history violates only after other histories ran in the same process: state outlives the connection/server objects] {}", v.detail.replace("NONDETERMINISTIC REPLAY: ", ""));
+                            }
+                            r.nondeterministic = false;
+                        }
+                        _ => {
+                            st.machinery_errors.push(format!(
+                                "nondeterministic replay of a violating path (also across fresh processes): {}",
+                                r.violation.as_ref().map(|v| v.detail.clone()).unwrap_or_default()
+                            ));
+                            continue;
+                        }
+                    }
                 }
                 let (pn, pa) = part[i];
                 if let Some(v) = r.violation {
